@@ -25,13 +25,16 @@ enum Item {
     Func(u32, Vec<Item>),
     /// a `const` item between statements
     ConstItem(u32),
+    /// a block whose condition is a compile-time constant (`if (0)`, `if (1)`, `while (0)`): whatever the compiler does with the
+    /// dead or unconditional code, the time labels inside still count for everything after it
+    ConstCond(&'static str, Vec<Item>),
 }
 
 fn gen_items(ch: &mut Chooser, n_items: usize, depth: u32, marker: &mut u32) -> Vec<Item> {
     let mut v = vec![];
     for _ in 0..n_items {
         let mut kinds = vec!["marker", "rel", "abs"];
-        if depth > 0 { kinds.extend(["loop", "if", "times", "free", "func"]); }
+        if depth > 0 { kinds.extend(["loop", "if", "times", "free", "func", "constcond"]); }
         kinds.push("const");
         let k = kinds[ch.pick(kinds.len())];
         v.push(match k {
@@ -42,7 +45,8 @@ fn gen_items(ch: &mut Chooser, n_items: usize, depth: u32, marker: &mut u32) -> 
             _ => {
                 let n = 1 + ch.pick(3);
                 let inner = gen_items(ch, n, depth - 1, marker);
-                match k { "loop" => Item::Loop(inner), "if" => Item::If(inner), "times" => Item::Times(inner), "func" => { *marker += 1; Item::Func(*marker, inner) }, _ => Item::Free(inner) }
+                match k { "loop" => Item::Loop(inner), "if" => Item::If(inner), "times" => Item::Times(inner), "func" => { *marker += 1; Item::Func(*marker, inner) },
+                    "constcond" => Item::ConstCond(["if (0)", "if (1)", "while (0)", "unless (1)", "if (2 - 2)"][ch.pick(5)], inner), _ => Item::Free(inner) }
             },
         });
     }
@@ -61,6 +65,7 @@ fn render(items: &[Item], out: &mut String) {
             Item::Free(b) => { out.push_str("{ "); render(b, out); out.push_str("} "); },
             Item::Func(k, b) => { out.push_str(&format!("inline void h{k}() {{ ")); render(b, out); out.push_str("} "); },
             Item::ConstItem(k) => out.push_str(&format!("const int KK{k} = {k}; ")),
+            Item::ConstCond(c, b) => { out.push_str(&format!("{c} {{ ")); render(b, out); out.push_str("} "); },
         }
     }
 }
@@ -77,6 +82,9 @@ fn m3(items: &[Item], t: &mut i32, out: &mut Vec<Exp>) {
             Item::Marker(k) => out.push(Exp::Marker(*k, *t)),
             Item::Free(b) => m3(b, t, out),
             Item::Func(..) | Item::ConstItem(_) => {},
+            // (markers inside are emitted or not, jumps may or may not be generated: only the markers OUTSIDE are compared, see
+            //  `has_const_cond`; the labels inside advance the clock like any others)
+            Item::ConstCond(_, b) => { let mut dead = vec![]; m3(b, t, &mut dead); for e in dead { if let Exp::Marker(k, tm) = e { out.push(Exp::Marker(if k >= 1_000_000 { k } else { k + 1_000_000 }, tm)); } } },
             Item::Loop(b) => { let t0 = *t; m3(b, t, out); out.push(Exp::BackJmp { time: *t, target_time: t0 }); },
             Item::If(b) => {
                 let t0 = *t;
@@ -131,6 +139,13 @@ fn check_compile(table: &Table, mapfile: &str, body: &str, expected: &[Exp]) -> 
             }
         }
     }
+    // bodies with constant-condition blocks: the compiler may drop dead code and need not emit the block's jumps, so only the
+    // markers outside those blocks are compared (those inside are tagged +1 000 000 by the model)
+    let has_const_cond = expected.iter().any(|e| matches!(e, Exp::Marker(k, _) if *k >= 1_000_000)) || body.contains("if (0)") || body.contains("if (1)") || body.contains("while (0)") || body.contains("unless (1)") || body.contains("if (2 - 2)");
+    let (got, expected): (Vec<Exp>, Vec<Exp>) = if has_const_cond {
+        let inner: BTreeSet<u32> = expected.iter().filter_map(|e| if let Exp::Marker(k, _) = e { if *k >= 1_000_000 { Some(*k - 1_000_000) } else { None } } else { None }).collect();
+        (got.into_iter().filter(|e| matches!(e, Exp::Marker(k, _) if !inner.contains(k))).collect(), expected.iter().filter(|e| matches!(e, Exp::Marker(k, _) if *k < 1_000_000)).cloned().collect())
+    } else { (got, expected.to_vec()) };
     if got != expected {
         return ("mismatch".into(), vec![Failure { signature: format!("C13:compile-times:{body}"), detail: detail(json!({"expected": format!("{:?}", expected), "got": format!("{:?}", got), "instrs": fmt_instrs(&instrs)})) }]);
     }
